@@ -38,7 +38,7 @@ EXPN = z3.Function('expansion_ij', z3.IntSort(), z3.IntSort(), z3.StringSort())
 
 class LimitLoops(Contract):
     """shared machinery for compile_pattern / translate"""
-    props = ('C11', 'C07', 'C03', 'C20', 'C08', 'C14', 'C10', 'C02', 'C12')
+    props = ('C11', 'C07', 'C03', 'C20', 'C08', 'C14', 'C10', 'C02', 'C12', 'C04', 'C06')
     assumptions = (
         'bracex.iexpand(p, limit=l) raises ExpansionLimitException only if l > 0 and the number of brace expansions of p exceeds l (read in bracex.ExpandBrace.account, not verified)',
         'expand() yields t(i) >= 1 items for pattern i (brace expansions x split pieces), lazily',
